@@ -67,51 +67,61 @@ structure ScanState where
   nUnknown : Nat
   deriving Inhabited
 
+/-- field lookup with the last-field cache: (field, last_field, last_field_index, n_unknown) -/
+def resolveField (fields : List FieldDesc) (st : ScanState) (tag : Nat) : Option Nat × Option Nat × Nat × Nat :=
+  let hit := match st.last with
+    | some li => (fields.getD li default).id == tag
+    | none => false
+  if hit then (st.last, st.last, st.lastIdx, st.nUnknown)
+  else match lookupField fields tag with
+    | none => (none, st.last, st.lastIdx, st.nUnknown + 1)
+    | some i => (some i, some i, i, st.nUnknown)
+
+/-- extent of one occurrence by wire type: (len, length-prefix length) -/
+def delimit (wt : Nat) (rest : Bytes) : Option (Nat × Nat) :=
+  if wt == 0 then (scanVarint (min rest.length 10) rest).map (fun n => (n, 0))
+  else if wt == 1 then (if rest.length < 8 then none else some (8, 0))
+  else if wt == 2 then (scanLen rest).map (fun (p, tot) => (tot, p))
+  else if wt == 5 then (if rest.length < 4 then none else some (4, 0))
+  else none
+
+/-- one iteration of the scan pass: the remaining input and the new state -/
+def scanStep (fields : List FieldDesc) (b : Bytes) (st : ScanState) : Option (Bytes × ScanState) :=
+  match scanKey b with
+  | none => none
+  | some (used, tag, wt) =>
+    let (field, last, lastIdx, nUnknown) := resolveField fields st tag
+    let bitmap := match field with
+      | some i => if (fields.getD i default).label == .required then lastIdx :: st.bitmap else st.bitmap
+      | none => st.bitmap
+    let rest := b.drop used
+    match delimit wt rest with
+    | none => none
+    | some (len, pref) =>
+      if st.acc.length ≥ maxScanned then none else
+      let sm : Scanned := ⟨tag, wt, pref, field, rest.take len⟩
+      let cnt : Option (List (Nat × Nat)) :=
+        match field with
+        | some i =>
+          let f := fields.getD i default
+          if f.label == .repeated then
+            if usesPackedPath f wt then
+              (countPacked f.type ((rest.take len).drop pref)).map (fun c => (i, c) :: st.counts)
+            else some ((i, 1) :: st.counts)
+          else some st.counts
+        | none => some st.counts
+      match cnt with
+      | none => none
+      | some counts => some (rest.drop len, ⟨last, lastIdx, bitmap, sm :: st.acc, counts, nUnknown⟩)
+
 /-- the scan pass (`while (rem > 0)`); `fuel` bounds the number of iterations (≤ input length) -/
 def scanLoop (fields : List FieldDesc) : Nat → Bytes → ScanState → Option ScanState
   | 0, b, st => if b.isEmpty then some st else none
   | fuel+1, b, st =>
     if b.isEmpty then some st else
-    match scanKey b with
+    match scanStep fields b st with
     | none => none
-    | some (used, tag, wt) =>
-      let hit := match st.last with
-        | some li => (fields.getD li default).id == tag
-        | none => false
-      let (field, last, lastIdx, nUnknown) :=
-        if hit then (st.last, st.last, st.lastIdx, st.nUnknown)
-        else match lookupField fields tag with
-          | none => (none, st.last, st.lastIdx, st.nUnknown + 1)
-          | some i => (some i, some i, i, st.nUnknown)
-      let bitmap := match field with
-        | some i => if (fields.getD i default).label == .required then lastIdx :: st.bitmap else st.bitmap
-        | none => st.bitmap
-      let rest := b.drop used
-      let lenr : Option (Nat × Nat) :=    -- (len, prefix length)
-        if wt == 0 then (scanVarint (min rest.length 10) rest).map (fun n => (n, 0))
-        else if wt == 1 then (if rest.length < 8 then none else some (8, 0))
-        else if wt == 2 then (scanLen rest).map (fun (p, tot) => (tot, p))
-        else if wt == 5 then (if rest.length < 4 then none else some (4, 0))
-        else none
-      match lenr with
-      | none => none
-      | some (len, pref) =>
-        if st.acc.length ≥ maxScanned then none else
-        let sm : Scanned := ⟨tag, wt, pref, field, rest.take len⟩
-        let cnt : Option (List (Nat × Nat)) :=
-          match field with
-          | some i =>
-            let f := fields.getD i default
-            if f.label == .repeated then
-              if usesPackedPath f wt then
-                (countPacked f.type ((rest.take len).drop pref)).map (fun c => (i, c) :: st.counts)
-              else some ((i, 1) :: st.counts)
-            else some st.counts
-          | none => some st.counts
-        match cnt with
-        | none => none
-        | some counts =>
-          scanLoop fields fuel (rest.drop len) ⟨last, lastIdx, bitmap, sm :: st.acc, counts, nUnknown⟩
+    | some (b', st') => scanLoop fields fuel b' st'
 
 /-- `parse_boolean` -/
 def parseBool (data : Bytes) : BitVec 32 := if data.any (fun b => b.toNat % 128 ≠ 0) then 1 else 0
